@@ -12,14 +12,20 @@ for f in ("patch.diff", "demo.rs", "demo.diff", "DEMO_CMD", "NOTES.md"):
         shutil.copy(p, os.path.join(dst, f))
 base = os.path.basename(src.rstrip("/"))
 confirm, checks = None, []
-for log in sorted(glob.glob("/tmp/mut_results/%s_%s*.log" % (prop, base)), key=os.path.getmtime):
+logdirs = os.environ.get("LOGDIRS", "/tmp/mut_results").split(":")
+logs = []
+for d in logdirs:
+    logs += glob.glob("%s/%s_%s*.log" % (d, prop, base))
+for log in sorted(logs, key=os.path.getmtime):
     for line in open(log):
         if line.startswith("CONFIRM"):
             confirm = line.strip()
         m = re.match(r"CHECK (\S+) (\S+) (\S+) exit=(\d+) ?(.*)", line)
         if m:
+            prev = [c for c in checks if c["check"] == m.group(3)]
+            hist = (prev[0]["exit_history"] if prev else []) + [int(m.group(4))]
             checks = [c for c in checks if c["check"] != m.group(3)]
-            checks.append({"check": m.group(3), "exit": int(m.group(4)), "first_violation": m.group(5)[:400]})
+            checks.append({"check": m.group(3), "exit": int(m.group(4)), "exit_history": hist, "first_violation": m.group(5)[:400]})
 meta = {
     "id": sid,
     "breaks_property": prop,
@@ -29,6 +35,7 @@ meta = {
     "what_i_ran": "tools/try_mutant.sh %s <dir> [checks]: scratch worktree of /repo HEAD; demo on the clean tree (must pass); git apply patch.diff; cargo test --workspace --no-fail-fast --offline (must pass); demo with the change (must fail); then VERIF_REPO=<worktree> bin/check <check> (quick tier)" % prop,
     "checks": checks,
     "detected_by": [c["check"] for c in checks if c["exit"] == 1],
+    "initially_missed_by": [c["check"] for c in checks if c["exit"] == 1 and c["exit_history"][0] != 1],
 }
 json.dump(meta, open(os.path.join(dst, "meta.json"), "w"), indent=1)
 print(sid, "detected_by", meta["detected_by"], "confirm:", (confirm or "")[:150])
